@@ -73,3 +73,25 @@ def register_p2(reg, prop):
             "ncalls('mark_done') <= 1",
         ],
         frame=["transfer.expected_chunks", "transfer.chunks"]))
+
+
+    # reassembly: the chunks are concatenated in the order of their packet numbers, each exactly once, whatever order they arrived in
+    for cls_, rel_, mod_ in (("Xfer", XREL, "hippolyzer.lib.base.xfer_manager"), ("Transfer", TREL, "hippolyzer.lib.base.transfer_manager")):
+        reg.add_fn(FnContract(
+            key=f"{mod_}:{cls_}.reassemble_chunks", relpath=rel_, qualname=f"{cls_}.reassemble_chunks", cls=cls_, prop=prop, use_wf=False,
+            returns="Opaque:Any",
+            externals={
+                "self.chunks.items": {"returns": "Opaque:Items", "record_as": "items", "record_result": True, "doc": "(packet number, data) pairs"},
+                "sorted": {"returns": "Opaque:Sorted", "record_as": "sorted", "record_result": True, "doc": "pairs in ascending packet-number order (built-in sort of (int, bytes) pairs with distinct ints)"},
+                "assembled.extend": {"record_as": "extend", "doc": "append the chunk's bytes"},
+            },
+            loops={"for _, data in sorted(self.chunks.items())": {
+                "elem_sort": "Tuple[Int,Bytes]", "ghost_init": {"_n": "0"}, "ghost_step": {"_n": "_n + ncalls('extend')"}, "inv": ["_n == _i"],
+                "iter_post": ["ncalls('extend') == 1 and called_with('extend', lambda arg0: arg0 == data)"]}},
+            ensures=[
+                "ncalls('items') == 1 and ncalls('sorted') == 1 and called_with('items', lambda result: called_with('sorted', lambda arg0: arg0 == result))",
+                "L0_left_early == 0 and defined('_n')",
+                "called_with('sorted', lambda result: _n == len(result))"],
+            frame=[]))
+        from pyvc.contracts import alias_loops_by_order
+        alias_loops_by_order(reg.fns[f"{mod_}:{cls_}.reassemble_chunks"])
